@@ -16,6 +16,7 @@ RULE = ('all keys are enumerated from three sources united: the exported lists, 
         'lengths, nodes strictly in (0,1), weights of one sign, never None) and every monomial of the advertised '
         'class is integrated exactly in mpmath (60 digits): 1e-13 relative on the returned doubles, 1e-30 on the '
         'literals of the source text. A case is one (family, key, moment, representation); distinct counts them')
+RULE += ' ' + 'A further shard requests rules BY DEGREE through the real scheme constructors of quadrature.py (degrees 0..70 of the one-argument ones, all pairs -1..23 of the two-argument ones): every request that is served must be exact for the whole requested class on the returned doubles.'
 ASSUMPTIONS = [
     'advertised class: log(Np,Nl): x^k k<=Np, x^k log x k<=Nl; log_log: additionally x^k log(1-x) k<=Nl; '
     'sqrt: x^k k<=Np, x^(k+1/2) k<=Ns; sqrtinv: x^k k<=Np, x^(k-1/2) k<=Ns; Gauss families with key N: '
@@ -24,7 +25,8 @@ ASSUMPTIONS = [
     'the 1e-30 clause is an execution of the oracle on the literals parsed from the source text, not a proof',
 ]
 REQUIRED = {t: ['family:log', 'family:log_log', 'family:sqrt', 'family:sqrtinv', 'family:gauss_sqrtinv',
-                'family:gauss_x', 'family:gauss_log', 'repr:double', 'repr:literal', 'exported-key']
+                'family:gauss_x', 'family:gauss_log', 'repr:double', 'repr:literal', 'exported-key', 'constructor:gauss', 'constructor:gauss_log', 'constructor:gauss_x',
+                'constructor:gauss_sqrtinv', 'constructor:log', 'constructor:sqrtinv']
             for t in ('quick', 'thorough')}
 
 FAMILIES = {
@@ -39,7 +41,7 @@ FAMILIES = {
 
 
 def plan(tier, seed):
-    return [{'name': fam, 'family': fam} for fam in FAMILIES]
+    return [{'name': fam, 'family': fam} for fam in FAMILIES] + [{'name': 'constructors', 'family': None, 'constructors': True}]
 
 
 # ---------------------------------------------------------------------------
@@ -135,7 +137,86 @@ def constructor_keys(fam):
     return keys
 
 
+def run_constructors(spec, acc):
+    """Rules requested BY DEGREE through the real scheme constructors of quadrature.py: every degree 0..70 of the four one-argument
+    constructors and every (degree, degree) pair of the four two-argument ones; a request that is served must be exact for the whole
+    requested class (doubles, 1e-13). Which requests are served is recorded, not judged (the tables end where they end)."""
+    import mpmath as mp
+    from ..monitor import repo_frame
+    from src import quadrature as QS
+    mp.mp.dps = 60
+    one = mp.mpf(1)
+    half = one / 2
+    served = {}
+    one_arg = {
+        'gauss': ('gauss_quadrature_scheme', lambda k: one / (k + 1)),
+        'gauss_sqrtinv': ('gauss_sqrtinv_quadrature_scheme', lambda k: one / (k + half)),
+        'gauss_x': ('gauss_x_quadrature_scheme', lambda k: one / (k + 2)),
+        'gauss_log': ('gauss_log_quadrature_scheme', lambda k: -one / (k + 1)**2),
+    }
+    for fam, (fname, moment) in one_arg.items():
+        served[fam] = []
+        for N_poly in range(0, 71):
+            wit = {'constructor': fname, 'degree': N_poly}
+            try:
+                sch = getattr(QS, fname)(N_poly)
+            except AssertionError:
+                continue
+            except Exception as ex:
+                fr = repo_frame(ex)
+                if fr is None:
+                    raise
+                acc.violation('constructor-raised:%s:%s' % (fam, type(ex).__name__), '%s(%d) raised %s at %s:%d' % (fname, N_poly, type(ex).__name__, fr[1], fr[2]), wit)
+                continue
+            served[fam].append(N_poly)
+            xs, ws = [mp.mpf(float(v)) for v in sch.points], [mp.mpf(float(v)) for v in sch.weights]
+            acc.seen('constructor:' + fam)
+            if len(xs) != len(ws) or not xs:
+                acc.violation('constructor-shape:' + fam, '%s(%d): %d nodes, %d weights' % (fname, N_poly, len(xs), len(ws)), wit)
+                continue
+            for k in range(0, N_poly + 1):
+                sm = mp.fsum(wi * xi**k for xi, wi in zip(xs, ws))
+                err = abs(sm - moment(k)) / abs(moment(k))
+                acc.case('ctor|%s|%d|%d' % (fam, N_poly, k), None)
+                acc.worst_of('constructor:%s' % fam, float(err))
+                if err > mp.mpf('1e-13'):
+                    acc.violation('constructor-rule-inexact:%s' % fam, '%s(%d) (%d nodes) integrates x^%d against its weight with relative error %s where degree <= %d is requested'
+                                  % (fname, N_poly, len(xs), k, mp.nstr(err, 3), N_poly), dict(wit, moment=k, error=mp.nstr(err, 5)))
+                    break
+    two_arg = {'log': 'log_quadrature_scheme', 'log_log': 'log_log_quadrature_scheme', 'sqrt': 'sqrt_quadrature_scheme', 'sqrtinv': 'sqrtinv_quadrature_scheme'}
+    for fam, fname in two_arg.items():
+        served[fam] = []
+        for a in range(-1, 24):
+            for b in range(-1, 24):
+                try:
+                    sch = getattr(QS, fname)(a, b)
+                except AssertionError:
+                    continue
+                except Exception as ex:
+                    fr = repo_frame(ex)
+                    if fr is None:
+                        raise
+                    acc.violation('constructor-raised:%s:%s' % (fam, type(ex).__name__), '%s(%d, %d) raised %s at %s:%d' % (fname, a, b, type(ex).__name__, fr[1], fr[2]),
+                                  {'constructor': fname, 'degrees': [a, b]})
+                    continue
+                served[fam].append([a, b])
+                xs, ws = [mp.mpf(float(v)) for v in sch.points], [mp.mpf(float(v)) for v in sch.weights]
+                acc.seen('constructor:' + fam)
+                for label, f, exact in moments(fam, (a, b), mp):
+                    sm = mp.fsum(wi * f(xi) for xi, wi in zip(xs, ws))
+                    err = abs(sm - exact) / abs(exact)
+                    acc.case('ctor|%s|%d,%d|%s' % (fam, a, b, label), None)
+                    if err > mp.mpf('1e-13'):
+                        acc.violation('constructor-rule-inexact:%s' % fam, '%s(%d, %d) integrates %s with relative error %s' % (fname, a, b, label, mp.nstr(err, 3)),
+                                      {'constructor': fname, 'degrees': [a, b], 'moment': label})
+                        break
+    acc.extra['constructor_requests_served'] = {k: (v if len(v) < 40 else v[:40] + ['...']) for k, v in served.items()}
+    acc.sample({'constructors': {k: len(v) for k, v in served.items()}}, 'constructors')
+
+
 def run_shard(spec, acc):
+    if spec.get('constructors'):
+        return run_constructors(spec, acc)
     import mpmath as mp
     from .. import env
     from src import quadrature_rules as Q
